@@ -97,12 +97,36 @@ func (c *Conn) note(s string) {
 // name is the command name without "UID"; uid tells whether it is a UID form.
 func (c *Conn) Do(name string, uid bool, text string) ([]*tok.Line, *tok.Line, error) {
 	tag := c.nextTag()
+	// command names are case-insensitive: every third command is sent with its
+	// leading words ("UID FETCH", "SEARCH RETURN") in lower case, every seventh
+	// in mixed case (deterministic, so that histories replay)
+	text = recase(text, c.tagN)
 	c.note(fmt.Sprintf("C%d> %s %s", c.ID, tag, text))
 	c.Obs.Begin(name, uid)
 	if err := c.Raw.Send(tag + " " + text + "\r\n"); err != nil {
 		return nil, nil, err
 	}
 	return c.finish(tag)
+}
+
+// recase rewrites the command name (and a leading "UID") of text.
+func recase(text string, n int) string {
+	if n%3 != 0 && n%7 != 0 {
+		return text
+	}
+	words := strings.SplitN(text, " ", 3)
+	k := 1
+	if strings.EqualFold(words[0], "UID") && len(words) > 1 {
+		k = 2
+	}
+	for i := 0; i < k && i < len(words); i++ {
+		w := strings.ToLower(words[i])
+		if n%7 == 0 && len(w) > 1 {
+			w = strings.ToUpper(w[:1]) + w[1:]
+		}
+		words[i] = w
+	}
+	return strings.Join(words, " ")
 }
 
 func (c *Conn) finish(tag string) ([]*tok.Line, *tok.Line, error) {
